@@ -8,6 +8,7 @@ mod samp;
 mod ser;
 mod tree;
 mod wt;
+mod zs;
 
 use std::io::{BufRead, Write};
 
@@ -62,6 +63,7 @@ fn dispatch(line: &str) -> String {
         "lat" => samp::lat(&toks),
         "pure" => samp::pure(&toks),
         "multi" => multi::line(&toks),
+        "zscore" => zs::line(&toks),
         "manyv" => multi::manyv(&toks),
         "zig" => zig_line(),
         "ping" => "pong".to_string(),
